@@ -112,8 +112,7 @@ type zzvCtlWorld struct {
 	t    testing.TB
 	m    *zzvMesh
 	reqs []*zzvCtlReq
-	base map[string]int64 // frames delivered to an agent minus frames it has processed, when idle (handshake frames)
-	down map[string]bool  // targets whose connection to T was broken during the current path
+	down map[string]bool // targets whose connection to T was broken during the current path
 	tdMu sync.Mutex
 	td   map[string]int // completed handleDisconnect calls per agent (hook peer.disconnect.done)
 }
@@ -172,7 +171,7 @@ func zzvCtlNewWorld(t testing.TB, hold bool) *zzvCtlWorld {
 			}
 		}
 	})
-	w.rebase()
+	w.settled()
 	if hold {
 		w.holdAll(true)
 	}
@@ -192,67 +191,39 @@ func (w *zzvCtlWorld) dirs() map[string]*zzvDir {
 	return out
 }
 
-// Exact (not time based) notion of a quiet network.  Per agent: frames handed to its connections minus frames
-// its processFrame has finished ("backlog").  Handlers write their own frames before they finish, so a frame in
-// flight or being processed anywhere shows as backlog > base at some agent at every instant.  The counters are
-// read one after the other, so quiet() takes two collects and requires them to be identical and balanced: then
-// there was an instant between them at which all counters had those values, i.e. the network was quiet, and a
-// quiet network stays quiet until the harness acts.
+// Exact (not time based) notion of a quiet network.  Per agent: frames handed to its connections (over all links
+// that ever existed) minus frames its processFrame has finished ("backlog").  Handlers write their own frames before
+// they finish, so a frame in flight or being processed anywhere shows as extra backlog at some agent at every
+// instant.  When idle the backlog of an agent is exactly the number of its link ends: each received one handshake
+// frame (PEER_HELLO or PEER_HELLO_ACK), which does not go through processFrame; keepalives and filtered frames are
+// never handed over.  The counters are read one after the other, so quiet() takes two collects and requires them to
+// be identical and balanced: then there was an instant between them at which all counters had those values, i.e.
+// the network was quiet, and a quiet network stays quiet until the harness acts.
 type zzvCtlCounters struct {
 	held  int
 	deliv map[string]int64
 	done  map[string]int64
+	ends  map[string]int64
 }
 
 func (w *zzvCtlWorld) counters() zzvCtlCounters {
-	c := zzvCtlCounters{deliv: map[string]int64{}, done: map[string]int64{}}
-	for ln, d := range w.dirs() {
-		d.mu.Lock()
-		c.deliv[ln[1:]] += int64(d.nDeliv)
-		c.held += len(d.pending)
-		d.mu.Unlock()
+	c := zzvCtlCounters{deliv: map[string]int64{}, done: map[string]int64{}, ends: map[string]int64{}}
+	w.m.Net.mu.Lock()
+	links := append([]*zzvLink(nil), w.m.Net.links...)
+	w.m.Net.mu.Unlock()
+	for _, l := range links {
+		for _, d := range []*zzvDir{l.a.out, l.b.out} {
+			d.mu.Lock()
+			c.deliv[d.to.name] += int64(d.nDeliv)
+			c.held += len(d.pending)
+			d.mu.Unlock()
+			c.ends[d.to.name]++
+		}
 	}
 	for _, n := range zzvCtlAgents {
 		c.done[n] = w.m.Net.DoneCount(n)
 	}
 	return c
-}
-
-func (w *zzvCtlWorld) backlog() map[string]int64 {
-	c := w.counters()
-	out := map[string]int64{}
-	for _, n := range zzvCtlAgents {
-		out[n] = c.deliv[n] - c.done[n]
-	}
-	return out
-}
-
-// rebase records the idle backlog: the counters must have been unchanged for a number of consecutive samples (late
-// frames of the set-up phase - route / node-info floods written before the control-only filter was installed - are
-// still being processed otherwise).
-func (w *zzvCtlWorld) rebase() {
-	same := 0
-	prev := w.counters()
-	for dl := time.Now().Add(20 * time.Second); time.Now().Before(dl) && same < 8; {
-		time.Sleep(8 * time.Millisecond)
-		cur := w.counters()
-		eq := true
-		for _, n := range zzvCtlAgents {
-			if cur.deliv[n] != prev.deliv[n] || cur.done[n] != prev.done[n] {
-				eq = false
-			}
-		}
-		if eq {
-			same++
-		} else {
-			same = 0
-		}
-		prev = cur
-	}
-	w.base = map[string]int64{}
-	for _, n := range zzvCtlAgents {
-		w.base[n] = prev.deliv[n] - prev.done[n]
-	}
 }
 
 func (w *zzvCtlWorld) quiet() bool {
@@ -261,7 +232,7 @@ func (w *zzvCtlWorld) quiet() bool {
 		return false
 	}
 	for _, n := range zzvCtlAgents {
-		if c1.deliv[n]-c1.done[n] != w.base[n] {
+		if c1.deliv[n]-c1.done[n] != c1.ends[n] {
 			return false
 		}
 	}
@@ -270,11 +241,19 @@ func (w *zzvCtlWorld) quiet() bool {
 		return false
 	}
 	for _, n := range zzvCtlAgents {
-		if c1.deliv[n] != c2.deliv[n] || c1.done[n] != c2.done[n] {
+		if c1.deliv[n] != c2.deliv[n] || c1.done[n] != c2.done[n] || c1.ends[n] != c2.ends[n] {
 			return false
 		}
 	}
 	return true
+}
+
+// settled waits until the frames of a set-up phase (handshakes, route / node-info floods) have all been processed.
+func (w *zzvCtlWorld) settled() {
+	if !zzvAwait(30*time.Second, w.quiet) {
+		c := w.counters()
+		w.t.Fatalf("zzv: control mesh did not settle: delivered %v processed %v link ends %v held %d", c.deliv, c.done, c.ends, c.held)
+	}
 }
 
 func (w *zzvCtlWorld) holdAll(h bool) {
@@ -543,12 +522,12 @@ func (w *zzvCtlWorld) repair() bool {
 				}
 			}
 			return true
-		}) && w.m.Quiesce(10*time.Second, 20*time.Millisecond)
+		}) && w.m.Quiesce(10*time.Second, 8*time.Millisecond)
 	}
 	w.m.Net.mu.Lock()
 	w.m.Net.filter = filter
 	w.m.Net.mu.Unlock()
-	if !ok || !w.m.Quiesce(10*time.Second, 20*time.Millisecond) {
+	if !ok || !w.m.Quiesce(10*time.Second, 8*time.Millisecond) {
 		return false
 	}
 	for _, n := range zzvCtlAgents {
@@ -564,7 +543,7 @@ func (w *zzvCtlWorld) repair() bool {
 		ag.controlMu.Unlock()
 	}
 	w.down = map[string]bool{}
-	w.rebase()
+	w.settled()
 	w.holdAll(true)
 	return true
 }
@@ -583,7 +562,8 @@ func (w *zzvCtlWorld) finish() (out []zzvCtlOutcome, clean bool) {
 	w.holdAll(false)
 	quiet := func() {
 		if !zzvAwait(30*time.Second, w.quiet) {
-			w.t.Fatal("zzv: control mesh did not become quiet")
+			c := w.counters()
+			w.t.Fatalf("zzv: control mesh did not become quiet: delivered %v processed %v link ends %v held %d", c.deliv, c.done, c.ends, c.held)
 		}
 	}
 	quiet()
